@@ -215,6 +215,13 @@ def run_c08(rep, tier):
     for o in bad_exc:
         rep.violation({'kind': 'seq', 'module': 'props_seq', 'call': o['_call'], 'failing_clauses': ['refusal_is_not_a_ValueError'], 'observed': o['outcome']},
                       f"{engine.brief_call(o['_call'])} raised {o['outcome'].get('exc')}: {o['outcome'].get('msg', '')[:80]}")
+    # symbol_count = k alone (1 <= k <= 16, at least k characters, nowhere near 16 x version 40): the request must be served
+    for o in refused:
+        kw = o['_call']['kw']
+        if kw.get('symbol_count') is not None and kw.get('version') is None and 1 <= kw['symbol_count'] <= 16 and o['outcome'].get('exc') != 'DataOverflowError' \
+                and 'ValueError' in o['outcome'].get('mro', []) and 'not long enough' not in o['outcome'].get('msg', ''):
+            rep.violation({'kind': 'seq', 'module': 'props_seq', 'call': o['_call'], 'failing_clauses': ['count_as_requested'], 'observed': o['outcome']},
+                          f"{engine.brief_call(o['_call'])} was refused: {o['outcome'].get('msg', '')[:80]}")
     verdicts, st = common.validate_observations(rep.pid, 'Trace_Seq', ok, tag='seq', timeout=3000)
     rep.add_trace_stats(st, len(ok))
     for o in ok:
@@ -244,7 +251,7 @@ def replay(pid, d):
     print('call    :', engine.brief_call(d['call']))
     print('outcome :', o['outcome'], len(o['syms']), 'symbols')
     if o['outcome']['status'] != 'ok':
-        bad = 'ValueError' not in o['outcome'].get('mro', [])
+        bad = 'ValueError' not in o['outcome'].get('mro', []) or d.get('failing_clauses') == ['count_as_requested']
         print('VIOLATION property=%s replay=(this file)' % pid if bad else 'refused with a ValueError')
         return 1 if bad else 0
     verdicts, _ = common.validate_observations(pid + '_replay', 'Trace_Seq', [o], shards=1, tag='seq')
